@@ -32,6 +32,10 @@ MUTANTS = [
     ("C16", R + "_diagnostics.py", "                    if not messages:\n                        messages.append(f\"Relation '{relation!s}' has no rows (static).\")\n", "", "Diagnostics forgets the default message"),
     ("C16", R + "_operations/_selection.py", "    def is_empty_invariant(self) -> bool:\n        # Docstring inherited.\n        return False", "    def is_empty_invariant(self) -> bool:\n        # Docstring inherited.\n        return True", "Selection claims to be empty-invariant"),
     ("C16", R + "_diagnostics.py", "                        if lhs_result.is_doomed or rhs_result.is_doomed:\n                            return cls(True, messages)\n", "", "Diagnostics join arm ignores doomed operands (equivalent: the executor branch still decides it) -- must NOT be flagged"),
+    ("C19", R + "_engine.py", 'name = f"{prefix}_{self.relation_name_counter:04d}_{uuid.uuid4().hex}"', 'name = f"{prefix}_{self.relation_name_counter:04d}"', "get_relation_name drops the uuid"),
+    ("C19", R + "_engine.py", 'name = f"{prefix}_{self.relation_name_counter:04d}_{uuid.uuid4().hex}"', 'name = f"{uuid.uuid4().hex}_{prefix}_{self.relation_name_counter:04d}"', "get_relation_name puts the uuid before the prefix"),
+    ("C19", R + "_leaf_relation.py", 'object.__setattr__(self, "name", self.engine.get_relation_name(name_prefix))', 'object.__setattr__(self, "name", name_prefix)', "leaf name is just the prefix"),
+    ("C19", R + "_leaf_relation.py", 'object.__setattr__(self, "name", self.engine.get_relation_name(name_prefix))', 'object.__setattr__(self, "name", self.engine.get_relation_name())', "leaf name ignores the requested prefix"),
 ]
 
 
